@@ -238,30 +238,90 @@ theorem forward_eq_likelihood (m : Hmm) (obs : List Nat) (h : obs ≠ []) : forw
 
 /-! ### Viterbi -/
 
-theorem ix_stepV_val (m : Hmm) (col : List Nat) (o : Nat) {j : Nat} (hj : j < m.S) :
-    ix (stepV m col o).1 j =
-      ix col (ix (stepV m col o).2 j) * m.trans (ix (stepV m col o).2 j) j * m.emit j o := by
+/-- what the Viterbi proof needs of a predecessor selector -/
+def IsArgmax (sel : Sel) : Prop :=
+  ∀ (c t : Nat → Nat) (n : Nat), 0 < n → sel c t n < n ∧ ∀ k, k < n → c k * t k ≤ c (sel c t n) * t (sel c t n)
+
+theorem isArgmax_selLast : IsArgmax selLast := by
+  intro c t n hn
+  exact ⟨argmaxLast_lt _ hn, fun k hk => le_argmaxLast (fun k => c k * t k) hk⟩
+
+/-- the zero-aware comparator of the Rust code selects a maximum of the products as well -/
+theorem isArgmax_selZ : IsArgmax selZ := by
+  intro c t n hn
+  simp only [selZ]
+  induction n with
+  | zero => cases hn
+  | succ n ih =>
+    simp only [argmaxBy]
+    by_cases h0 : n = 0
+    · subst h0
+      simp only [if_true]
+      refine ⟨by omega, ?_⟩
+      intro k hk
+      have hk0 : k = 0 := by omega
+      subst hk0
+      exact Nat.le_refl _
+    · obtain ⟨hb, hub⟩ := ih (by omega)
+      simp only [h0, if_false]
+      -- b = best of 0 … n-1
+      generalize argmaxBy (cmpZ c t) n = b at hb hub ⊢
+      have key : (cmpZ c t b n = .gt → c n * t n ≤ c b * t b) ∧ (cmpZ c t b n ≠ .gt → c b * t b ≤ c n * t n) := by
+        unfold cmpZ
+        by_cases hcb : c b = 0
+        · by_cases hcn : c n = 0
+          · simp [hcb, hcn]
+          · simp [hcb, hcn]
+        · by_cases hcn : c n = 0
+          · simp [hcb, hcn]
+          · simp only [hcb, hcn, false_and, if_false]
+            constructor
+            · intro hgt
+              exact Nat.le_of_lt (Nat.compare_eq_gt.mp hgt)
+            · intro hngt
+              rcases hc : compare (c b * t b) (c n * t n) with _ | _ | _
+              · exact Nat.le_of_lt (Nat.compare_eq_lt.mp hc)
+              · exact Nat.le_of_eq (Nat.compare_eq_eq.mp hc)
+              · exact absurd hc hngt
+      by_cases hg : cmpZ c t b n = .gt
+      · simp only [hg, if_true]
+        refine ⟨by omega, ?_⟩
+        intro k hk
+        by_cases hkn : k = n
+        · subst hkn; exact key.1 hg
+        · exact hub k (by omega)
+      · simp only [hg, if_false]
+        refine ⟨by omega, ?_⟩
+        intro k hk
+        by_cases hkn : k = n
+        · subst hkn; exact Nat.le_refl _
+        · exact Nat.le_trans (hub k (by omega)) (key.2 hg)
+
+theorem ix_stepV_val (sel : Sel) (m : Hmm) (col : List Nat) (o : Nat) {j : Nat} (hj : j < m.S) :
+    ix (stepV sel m col o).1 j =
+      ix col (ix (stepV sel m col o).2 j) * m.trans (ix (stepV sel m col o).2 j) j * m.emit j o := by
   simp only [stepV, ix_tab _ hj]
 
-theorem ix_stepV_ptr_lt (m : Hmm) (col : List Nat) (o : Nat) {j : Nat} (hj : j < m.S) :
-    ix (stepV m col o).2 j < m.S := by
+theorem ix_stepV_ptr_lt {sel : Sel} (hsel : IsArgmax sel) (m : Hmm) (col : List Nat) (o : Nat) {j : Nat}
+    (hj : j < m.S) : ix (stepV sel m col o).2 j < m.S := by
   simp only [stepV, ix_tab _ hj]
-  exact argmaxLast_lt _ (by omega)
+  exact (hsel _ _ _ (by omega)).1
 
-theorem ix_stepV_ub (m : Hmm) (col : List Nat) (o : Nat) {j k : Nat} (hj : j < m.S) (hk : k < m.S) :
-    ix col k * m.trans k j * m.emit j o ≤ ix (stepV m col o).1 j := by
+theorem ix_stepV_ub {sel : Sel} (hsel : IsArgmax sel) (m : Hmm) (col : List Nat) (o : Nat) {j k : Nat}
+    (hj : j < m.S) (hk : k < m.S) :
+    ix col k * m.trans k j * m.emit j o ≤ ix (stepV sel m col o).1 j := by
   simp only [stepV, ix_tab _ hj]
   apply Nat.mul_le_mul_right
-  exact le_argmaxLast (fun k => ix col k * m.trans k j) hk
+  exact (hsel (ix col) (fun k => m.trans k j) m.S (by omega)).2 k hk
 
 /-- main invariant of the traceback: the traced path starts in a state `k0`, continues with a path `π` of the
 right length, its weight from `col` on equals the reported value, and no other start state / continuation
 has a larger weight. -/
-theorem traceback_spec (m : Hmm) (hS : 0 < m.S) (os : List Nat) : ∀ col : List Nat,
-    ∃ k0 π, (tracebackW m.S m.fin col (matFrom m col os)).1 = k0 :: π ∧ k0 < m.S ∧ π ∈ paths m.S os.length ∧
-      ix col k0 * chain m k0 os π = (tracebackW m.S m.fin col (matFrom m col os)).2 ∧
+theorem traceback_spec {sel : Sel} (hsel : IsArgmax sel) (m : Hmm) (hS : 0 < m.S) (os : List Nat) : ∀ col : List Nat,
+    ∃ k0 π, (tracebackW m.S m.fin col (matFrom sel m col os)).1 = k0 :: π ∧ k0 < m.S ∧ π ∈ paths m.S os.length ∧
+      ix col k0 * chain m k0 os π = (tracebackW m.S m.fin col (matFrom sel m col os)).2 ∧
       ∀ k, k < m.S → ∀ ρ ∈ paths m.S os.length,
-        ix col k * chain m k os ρ ≤ (tracebackW m.S m.fin col (matFrom m col os)).2 := by
+        ix col k * chain m k os ρ ≤ (tracebackW m.S m.fin col (matFrom sel m col os)).2 := by
   induction os with
   | nil =>
     intro col
@@ -274,17 +334,17 @@ theorem traceback_spec (m : Hmm) (hS : 0 < m.S) (os : List Nat) : ∀ col : List
       exact le_argmaxLast (fun k => ix col k * m.fin k) hk
   | cons o os ih =>
     intro col
-    obtain ⟨j0, π, hp, hj0, hπ, hval, hub⟩ := ih (stepV m col o).1
+    obtain ⟨j0, π, hp, hj0, hπ, hval, hub⟩ := ih (stepV sel m col o).1
     simp only [matFrom, tracebackW, hp, List.headD_cons]
-    refine ⟨ix (stepV m col o).2 j0, j0 :: π, rfl, ix_stepV_ptr_lt m col o hj0, cons_mem_paths hj0 hπ, ?_, ?_⟩
-    · rw [← hval, ix_stepV_val m col o hj0]
+    refine ⟨ix (stepV sel m col o).2 j0, j0 :: π, rfl, ix_stepV_ptr_lt hsel m col o hj0, cons_mem_paths hj0 hπ, ?_, ?_⟩
+    · rw [← hval, ix_stepV_val sel m col o hj0]
       simp only [chain]; ac_rfl
     · intro k hk ρ hρ
       obtain ⟨j, ρ', rfl, hj, hρ'⟩ := mem_paths_succ hρ
       simp only [chain]
       calc ix col k * (m.trans k j * m.emit j o * chain m j os ρ')
           = (ix col k * m.trans k j * m.emit j o) * chain m j os ρ' := by ac_rfl
-        _ ≤ ix (stepV m col o).1 j * chain m j os ρ' := Nat.mul_le_mul_right _ (ix_stepV_ub m col o hj hk)
+        _ ≤ ix (stepV sel m col o).1 j * chain m j os ρ' := Nat.mul_le_mul_right _ (ix_stepV_ub hsel m col o hj hk)
         _ ≤ _ := hub j hj ρ' hρ'
 
 theorem traceback_eq_W (S : Nat) (col : List Nat) (mats : List (List Nat × List Nat)) :
@@ -293,33 +353,41 @@ theorem traceback_eq_W (S : Nat) (col : List Nat) (mats : List (List Nat × List
   | nil => simp [traceback, tracebackW]
   | cons cf rest ih => simp only [traceback, tracebackW, ih]
 
-theorem matFrom_noEnd (m : Hmm) (col : List Nat) (os : List Nat) : matFrom m.noEnd col os = matFrom m col os := by
+theorem matFrom_noEnd (sel : Sel) (m : Hmm) (col : List Nat) (os : List Nat) :
+    matFrom sel m.noEnd col os = matFrom sel m col os := by
   induction os generalizing col with
   | nil => rfl
   | cons o os ih => simp only [matFrom, ih]; rfl
 
-theorem viterbi_eq_viterbiE_noEnd (m : Hmm) (obs : List Nat) : viterbi m obs = viterbiE m.noEnd obs := by
+/-- the code mirror is the general algorithm with the zero-aware selector on the model without end term -/
+theorem viterbi_eq_viterbiWith_noEnd (m : Hmm) (obs : List Nat) : viterbi m obs = viterbiWith selZ m.noEnd obs := by
   cases obs with
   | nil => rfl
   | cons o os =>
-    simp only [viterbi, viterbiE, traceback_eq_W, matFrom_noEnd]
+    simp only [viterbi, viterbiWith, traceback_eq_W, matFrom_noEnd]
     rfl
 
-theorem viterbiE_spec (m : Hmm) (hS : 0 < m.S) (obs : List Nat) (h : obs ≠ []) :
-    (viterbiE m obs).1 ∈ paths m.S obs.length ∧
-    joint m obs (viterbiE m obs).1 = (viterbiE m obs).2 ∧
-    ∀ ρ ∈ paths m.S obs.length, joint m obs ρ ≤ (viterbiE m obs).2 := by
+theorem viterbiWith_spec {sel : Sel} (hsel : IsArgmax sel) (m : Hmm) (hS : 0 < m.S) (obs : List Nat) (h : obs ≠ []) :
+    (viterbiWith sel m obs).1 ∈ paths m.S obs.length ∧
+    joint m obs (viterbiWith sel m obs).1 = (viterbiWith sel m obs).2 ∧
+    ∀ ρ ∈ paths m.S obs.length, joint m obs ρ ≤ (viterbiWith sel m obs).2 := by
   cases obs with
   | nil => exact absurd rfl h
   | cons o os =>
-    obtain ⟨k0, π, hp, hk0, hπ, hval, hub⟩ := traceback_spec m hS os (col0 m o)
-    simp only [viterbiE, hp, List.length_cons]
+    obtain ⟨k0, π, hp, hk0, hπ, hval, hub⟩ := traceback_spec hsel m hS os (col0 m o)
+    simp only [viterbiWith, hp, List.length_cons]
     refine ⟨cons_mem_paths hk0 hπ, ?_, ?_⟩
     · rw [← hval]; simp only [joint, col0, ix_tab _ hk0]
     · intro ρ hρ
       obtain ⟨k, ρ', rfl, hk, hρ'⟩ := mem_paths_succ hρ
       have := hub k hk ρ' hρ'
       simpa only [joint, col0, ix_tab _ hk] using this
+
+theorem viterbiE_spec (m : Hmm) (hS : 0 < m.S) (obs : List Nat) (h : obs ≠ []) :
+    (viterbiE m obs).1 ∈ paths m.S obs.length ∧
+    joint m obs (viterbiE m obs).1 = (viterbiE m obs).2 ∧
+    ∀ ρ ∈ paths m.S obs.length, joint m obs ρ ≤ (viterbiE m obs).2 :=
+  viterbiWith_spec isArgmax_selLast m hS obs h
 
 end RbV.Hmm
 
